@@ -18,6 +18,6 @@ UNIT = Unit(
     name="U-BP",
     properties=["C11"],
     describe="Pratt binding-power tables (infix/prefix/postfix/type-infix) against the documented grammar: operator set, precedence levels, "
-             "left associativity, unary tighter than * /, call/field tightest, `->` right-associative — for all token kinds",
+             "left associativity, unary tighter than * /, field access tightest and call tighter than every other binary operator, `->` right-associative — for all token kinds. NOT a table fact: call vs prefix operator (prefix 23 > call 21: the CST of `-f(x)` is `(-f)(x)`; the lowering re-associates it, U-CALLLOWER)",
     items=items,
 )
